@@ -405,6 +405,10 @@ impl ToLatex for Primitive {
 impl fmt::Display for Primitive {
     fn fmt(&self, f: &mut fmt::Formatter<'_>) -> fmt::Result {
         let s = match self {
+            // a decimal keeps its point ('2.0', not '2'): the source form of an
+            // integral decimal must read back as a decimal, and beyond 2^63 it
+            // would not read back at all
+            Primitive::Number(n) if n.is_finite() && n.fract() == 0.0 => format!("{:.1}", n),
             Primitive::Number(n) => n.to_string(),
             Primitive::Integer(n) => n.to_string(),
             Primitive::PositiveInteger(n) => n.to_string(),
